@@ -570,6 +570,7 @@ package wal
 //@   requires w.metaDB != nil && w.codec != nil && w.sf != nil && w.metrics != nil && av(w.s) != nil && WFS(av(w.s))
 //@   requires[assumed-headroom] Headroom(av(w.s))
 //@   requires[C03.rotate-sealed-nonempty] av(w.s).tail.last != 0
+//@   requires[C14.no-rotation-after-close] w.closed == 0
 //@   assigns g_commits, g_open, w.s, av(w.s).refCount, av(w.s).finalizer
 //@   ensures[C03.published-state-wf] av(w.s) != nil && WFS(av(w.s))
 //@   ensures[C05.rotate-keeps-view] result == nil ==> FirstOf(av(w.s)) == old(FirstOf(av(w.s))) && LastOf(av(w.s)) == old(LastOf(av(w.s)))
@@ -578,6 +579,26 @@ package wal
 //@   ensures[C20.rotations] result == nil ==> counter("segment_rotations") == old(counter("segment_rotations")) + 1
 //@   ensures[C20.failed-rotation-not-counted] result != nil ==> counter("segment_rotations") == old(counter("segment_rotations"))
 //@   ensures[C10.published-only-on-success] result != nil ==> av(w.s) == old(av(w.s))
+
+//@ -- the background rotation goroutine, one iteration at a time under the
+//@ -- sequential model (the receive yields an arbitrary value, also after Close
+//@ -- closed the channel or with a trigger still buffered; the write lock is held
+//@ -- between Lock and Unlock). It must not touch a WAL that Close has torn down:
+//@ -- whatever it received, it rotates only after seeing closed == 0 under the lock.
+//@ -- [assumed-published-wf]: while the WAL is open the published state is well
+//@ -- formed (every store to w.s is proved to publish a WFS state, [C14.published-wf]).
+//@ -- [assumed-rotation-handshake]: a trigger is only sent together with a fresh,
+//@ -- open awaitRotate channel (triggerRotateLocked) after an append sealed the
+//@ -- (hence non-empty) tail; the cross-goroutine handshake
+//@ -- itself is outside the sequential model.
+//@ func (*WAL).runRotate
+//@   props C14
+//@   requires w.closed <= 1 && w.metaDB != nil && w.codec != nil && w.sf != nil && w.metrics != nil && w.log != nil && av(w.s) != nil
+//@   requires[assumed-published-wf] w.closed == 0 ==> WFS(av(w.s))
+//@   requires[assumed-rotation-handshake] w.awaitRotate != nil && !closed(w.awaitRotate) && (w.closed == 0 ==> av(w.s).tail.last != 0)
+//@   assigns *
+//@   loop 1 invariant w.closed <= 1 && w.metaDB != nil && w.codec != nil && w.sf != nil && w.metrics != nil && w.log != nil && av(w.s) != nil && (w.closed == 0 ==> WFS(av(w.s)))
+//@   loop 1 invariant[assumed-rotation-handshake] w.awaitRotate != nil && !closed(w.awaitRotate) && (w.closed == 0 ==> av(w.s).tail.last != 0)
 
 //@ -- first append to an empty log at an index other than the tail's BaseIndex:
 //@ -- replace the empty tail by one with the right BaseIndex
